@@ -23,6 +23,7 @@ REPO = os.environ.get("VERIF_REPO", "/repo")
 
 PROPS = {
     "C02": "sim.props.c02",
+    "C06": "sim.props.c06",
     "C08": "sim.props.c08",
     "C16": "sim.props.c16",
     "C18": "sim.props.c18",
